@@ -7,9 +7,12 @@
     Model/C04/Classes2.lean Gaussian real substitution (ordered pairs, explicit gather), Constant, MarkovProduct/Scatter,
                             term builders of Independent/Delta eager_subs
 
+    Model/C04/Call.lean     the call sugar `Funsor.__call__`: positional + keyword values merged into ONE list of pairs
+
   The specification is `denote (Term.subs t σ)` of the shared Model/Term.lean.
 -/
 import FunsorVerif.Model.C04.NT
 import FunsorVerif.Model.C04.Subst
 import FunsorVerif.Model.C04.Classes
 import FunsorVerif.Model.C04.Classes2
+import FunsorVerif.Model.C04.Call
